@@ -39,6 +39,8 @@ func init() {
 			delay := []int{0, 0, 1, 5, 20, 40, 60, 100}[r.Intn(8)]
 			res := r.Pick("ok", "ok", "err")
 			return c.Add(sexp.A("shape"), sexp.A(shape), sexp.N(delay), sexp.A(res))
+		case "abandon":
+			return c.Add(sexp.A("abandon"), sexp.A(r.Pick("noret", "err", "err", "chan", "raw")), sexp.A(r.Pick("ok", "err")), sexp.A(r.Pick("ok", "err")))
 		}
 		return nil
 	})
